@@ -16,8 +16,13 @@ C15 run <checkHeader> <unauthAct> <noMatchAct> <errAct> <conn> <user> <mailFrom>
    | O <mask> <order>    directives NOT written in the configuration block (bits: 1 check_header, 2 unauth_action,
                          4 no_match_action, 8 err_action, 16 auth_normalize, 32 from_normalize, 64 user_to_email,
                          128 prepare_email): the model takes `Init`'s default for them
+   | AU <arg>* | AN <arg>* | AE <arg>*   what follows the action word of unauth_action / no_match_action / err_action in the
+                         configuration (`reject 553 5.7.1 "text"`: AU 553 5.7.1 <text>); with the action letter `x` the whole
+                         argument list of the directive (a word that is no action, or nothing at all)
    | N … | H … | G … | GF … | GS …    replay material for the Go side (ignored here)
 ```
+The action arguments go through `parseActionDirective`; a written directive that does not parse makes `Init` fail:
+answer `config-refused`.  A refusal answered with a configured reply is `<reason>:<code>:<enh>><code>:<enh>:<text>/<flags>`.
 Table kind F = the real `table.file`: `U F <err> <style>`, the `u` groups are the entry lines of the
 file in file order (a key may repeat).
 
@@ -56,17 +61,21 @@ structure Spec where
   fromFields : List FromField := []      -- reversed while parsing
   senderFields : List SenderField := []
   omitted : Nat := 0
+  actArgs : List (String × List Str) := []
 
 def bool? : String → Option Bool
   | "0" => some false
   | "1" => some true
   | _ => none
 
-def action? : String → Option FailAction
-  | "r" => some ⟨true, false⟩
-  | "q" => some ⟨false, true⟩
-  | "i" => some ⟨false, false⟩
-  | "b" => some ⟨true, true⟩
+/-- The argument list of an action directive: the word the letter stands for followed by the further
+arguments; with `x` the arguments as they are. -/
+def actionArgs? (letter : String) (args : List Str) : Option (List Str) :=
+  match letter with
+  | "r" => some (REJECT :: args)
+  | "q" => some (QUARANTINE :: args)
+  | "i" => some (IGNORE :: args)
+  | "x" => some args
   | _ => none
 
 def kindOk (k : String) : Bool :=
@@ -89,6 +98,9 @@ def parseGroup (s : Spec) (g : List String) : Option Spec :=
     pure { s with u2e := { s.u2e with kind := k, err := (← bool? e) } }
   | ["O", m, _] => do
     pure { s with omitted := (← m.toNat?) }
+  | "AU" :: as => do pure { s with actArgs := ("AU", ← as.mapM unhexRunes?) :: s.actArgs }
+  | "AN" :: as => do pure { s with actArgs := ("AN", ← as.mapM unhexRunes?) :: s.actArgs }
+  | "AE" :: as => do pure { s with actArgs := ("AE", ← as.mapM unhexRunes?) :: s.actArgs }
   | "p" :: k :: vs => do
     pure { s with prep := { s.prep with rows := s.prep.rows ++ [(← unhexRunes? k, ← vs.mapM unhexRunes?)] } }
   | "u" :: k :: vs => do
@@ -161,10 +173,14 @@ def showSmtp (r : Reason) : String :=
   let (code, a, b, c) := r.smtp
   s!"{code}:{a}.{b}.{c}"
 
+def showReply : Option Reply → String
+  | none => ""
+  | some o => s!">{o.code}:{o.enh.1}.{o.enh.2.1}.{o.enh.2.2}:{hexRunes o.msg}"
+
 def showRes (r : Result) : String :=
   let why := match r.reason with
     | none => "ok"
-    | some x => s!"{reasonName x}:{showSmtp x}"
+    | some x => s!"{reasonName x}:{showSmtp x}{showReply r.reply}"
   s!"{why}/{if r.reject then 1 else 0}{if r.quarantine then 1 else 0}"
 
 def strHex (x : String) : String := hexRunes (x.toList.map Char.toNat)
@@ -183,9 +199,9 @@ def probeCfg : Cfg where
   checkHeader := true
   emailPrepare := .multi fun _ => .ok []
   userToEmail := .multi fun _ => .ok []
-  unauthAction := ⟨true, false⟩
-  noMatchAction := ⟨false, true⟩
-  errAction := ⟨true, true⟩
+  unauthAction := { reject := true, quarantine := false }
+  noMatchAction := { reject := false, quarantine := true }
+  errAction := { reject := true, quarantine := true }
   fromNorm := some
   authNorm := some
 
@@ -257,9 +273,12 @@ def handle (toks : List String) : String :=
   match groups toks with
   | ("file" :: _) :: rest => handleFile rest
   | ["run", ch, ua, na, ea, conn, user, mf] :: rest =>
-    match bool? ch, action? ua, action? na, action? ea, bool? conn, unhexRunes? user, unhexRunes? mf,
-          rest.foldlM parseGroup ({} : Spec) with
-    | some ch, some ua, some na, some ea, some conn, some user, some mf, some s =>
+    match bool? ch, bool? conn, unhexRunes? user, unhexRunes? mf, rest.foldlM parseGroup ({} : Spec) with
+    | some ch, some conn, some user, some mf, some s =>
+      let argsOf (tag letter : String) : Option (List Str) :=
+        actionArgs? letter ((s.actArgs.find? (fun p => p.1 == tag)).map (·.2) |>.getD [])
+      match argsOf "AU" ua, argsOf "AN" na, argsOf "AE" ea with
+      | some uaArgs, some naArgs, some eaArgs =>
       let fromFields := s.fromFields.reverse
       let senderFields := s.senderFields.reverse
       -- every primitive query the model can make must be in the shipped tables
@@ -268,9 +287,14 @@ def handle (toks : List String) : String :=
       if fnQueries.any (fun q => (find s.fn q).isNone) || (find s.an user).isNone then "bad-op missing-primitive" else
       -- the configuration block: a directive that is not written is `none` (Init's default applies)
       let written {α : Type} (bit : Nat) (v : α) : Option α := if s.omitted.testBit bit then none else some v
+      -- the action directives that are written go through the real grammar; one that does not parse fails `Init`
+      let ua := (written 1 uaArgs).map parseActionDirective
+      let na := (written 2 naArgs).map parseActionDirective
+      let ea := (written 3 eaArgs).map parseActionDirective
+      if ua == some none || na == some none || ea == some none then "config-refused" else
       let dirs : Directives := {
         checkHeader := written 0 ch
-        unauthAction := written 1 ua, noMatchAction := written 2 na, errAction := written 3 ea
+        unauthAction := ua.join, noMatchAction := na.join, errAction := ea.join
         userToEmail := written 6 s.u2e.table
         emailPrepare := written 7 s.prep.table
         fromNorm := fun a => (find s.fn a).join
@@ -279,7 +303,8 @@ def handle (toks : List String) : String :=
       let c := if conn then some user else none
       let hdr : Header := { fromFields := fromFields, senderFields := senderFields }
       s!"{showRes (checkSender cfg c mf)} {showRes (checkBody cfg c hdr)}"
-    | _, _, _, _, _, _, _, _ => "bad-op"
+      | _, _, _ => "bad-op"
+    | _, _, _, _, _ => "bad-op"
   | [["site", _, msg]] =>
     match Reason.all.find? (fun r => strHex r.message == msg) with
     | some r => s!"{actionName r} {showSmtp r}"
